@@ -1,3 +1,6 @@
+pub mod app;
+pub mod ops;
+pub mod script;
 pub mod sim;
 pub mod toycrypto;
 pub mod wire;
